@@ -741,7 +741,23 @@ class LayoutEval:
         if n == "Computed":
             return Con("computed", expr=args[0], size=lift(0))
         if n == "Enum":
-            return Con("enum", sub=self.as_con(args[0], node), mapping=kwargs)
+            # Enum(subcon, *merge, **mapping): the positional tables are enum classes (their members) or other Enum constructs
+            mapping = {}
+            for extra in args[1:]:
+                if isinstance(extra, tuple) and len(extra) == 3 and extra[0] == "class":
+                    _, emod, ecls = extra
+                    is_enum = any(norm(b).split(".")[-1] in ("Enum", "IntEnum", "IntFlag", "Flag", "StrEnum") for b in ecls.bases)
+                    if not is_enum:
+                        raise AnalysisError(f"construct.Enum(..., {ecls.name}): {ecls.name} is not an enum class; its table is not decided")
+                    for st in ecls.body:
+                        if isinstance(st, ast.Assign) and len(st.targets) == 1 and isinstance(st.targets[0], ast.Name) and not st.targets[0].id.startswith("_"):
+                            mapping[st.targets[0].id] = self.ev(st.value, emod, {})
+                elif isinstance(extra, Con) and extra.kind == "enum":
+                    mapping.update(extra.mapping)
+                else:
+                    raise AnalysisError(f"construct.Enum(..., {extra!r:.40}): positional table that is neither an enum class nor an Enum construct")
+            mapping.update(kwargs)
+            return Con("enum", sub=self.as_con(args[0], node), mapping=mapping)
         if n == "Array":
             return Con("array", sub=self.as_con(args[1], node), count=self.num(args[0]), node=node)
         if n == "Renamed":
